@@ -55,6 +55,9 @@ Fixpoint safe (argv : list string) : bool :=
        else safe r)
   end.
 
-(* the three lists as the configuration holds them *)
+(* the lists as the namespace / the configuration holds them *)
 Definition some3 (l : lists) : list (option string) * list (option string) * list (option string) :=
   match l with (d, p, f) => (map Some d, map Some p, map Some f) end.
+Definition some4 (l : lists4) :
+  list (option string) * list (option string) * list (option string) * list (option string) :=
+  match l with (d, p, s, f) => (map Some d, map Some p, map Some s, map Some f) end.
